@@ -134,7 +134,7 @@ def engine(eid, targets, sensors, decision="MunkresDecision", reward="SimpleSumm
             "metrics": metrics or [{"name": "TimeSinceObservation", "parameters": {}}],
             "parameters": {},
         },
-        "decision": {"name": decision, "parameters": dparams or {}},
+        "decision": {"name": decision, **(dparams or {})},
         "targets": targets,
         "sensors": sensors,
     }
@@ -216,3 +216,28 @@ GEO_B = ([0.0, 42164.0, 0.0], [-3.0746, 0.0, 0.0])
 
 def step_times(start: datetime, physics: int, n: int):
     return [start + timedelta(seconds=physics * k) for k in range(n + 1)]
+
+
+def overhead_orbit(when: datetime, lat_deg: float, lon_deg: float, alt_km: float, heading_deg: float = 90.0):
+    """ECI state (pos, vel) of a circular orbit that is over geodetic (lat, lon) at altitude alt at UTC ``when``.
+
+    ``heading_deg`` is the direction of travel measured from local north towards east (90 = due east).
+    Harness-side geometry only (places targets where sensors can see them); uses the library's lla2eci.
+    """
+    from resonaate.physics.bodies import Earth  # noqa: PLC0415
+    from resonaate.physics.transforms.methods import lla2eci  # noqa: PLC0415
+
+    fresh_needed = not fakeray._ACTORS  # noqa: SLF001  (lla2eci may use the KVS-backed reduction cache)
+    if fresh_needed:
+        fakeray.init()
+    lla = np.array([np.radians(lat_deg), np.radians(lon_deg), alt_km])
+    r = np.asarray(lla2eci(lla, when), dtype=float)[:3]
+    rhat = r / np.linalg.norm(r)
+    z = np.array([0.0, 0.0, 1.0])
+    east = np.cross(z, rhat)
+    east /= np.linalg.norm(east)
+    north = np.cross(rhat, east)
+    h = np.radians(heading_deg)
+    vdir = np.cos(h) * north + np.sin(h) * east
+    v = np.sqrt(Earth.mu / np.linalg.norm(r)) * vdir
+    return [float(x) for x in r], [float(x) for x in v]
